@@ -11,9 +11,14 @@ import (
 func init() { register("C01", factsC01) }
 
 // findLoopGuard inspects runner.run's main `for step := 0; ; step++` loop.
+var c01Trans func(r *Repo) []Fact
+
 func factsC01(r *Repo) []Fact {
 	cp := r.Pkg("compose")
 	var out []Fact
+	if c01Trans != nil {
+		out = append(out, c01Trans(r)...)
+	}
 	// --- step guard ---
 	fd, file := cp.Func("runner", "run")
 	guardFound, beforeSubmit, onlyNonDag := false, false, false
